@@ -51,13 +51,14 @@ def h_tobytes(cname, n):
     return h
 
 
-def h_tofile(cname, n, chunk_bits):
+def h_tofile(cname, n, chunk_bits, lsb0=False):
     def h(K):
         import bitstring
         cls = classes()[cname]
         x = K.bits('x', n)
         s = mk(K, cls, x)
         bitstring._verif_tofile_chunk_bits = chunk_bits
+        bitstring.options.lsb0 = lsb0       # what is written is the stored order in both modes (tobytes() is a whole-value interpretation)
         try:
             if K.symbolic:
                 w = F.FakeWriter()
@@ -70,6 +71,7 @@ def h_tofile(cname, n, chunk_bits):
                 got.frombytes(buf.getvalue())
         finally:
             del bitstring._verif_tofile_chunk_bits
+            bitstring.options.lsb0 = False
         if not r.ok:
             return K.fail('tofile raised', exc=r.excname)
         return K.check(same(got, _padded(x)) and same(raw(s), x), 'tofile must write exactly tobytes()', got=got, expected=_padded(x), chunk_bits=chunk_bits)
@@ -257,8 +259,10 @@ def conditions(tier):
             add(f'C17.tobytes[{c},n={n}]', h_tobytes(c, n), f'all {n}-bit contents', n=n)
         for (n, ch) in ([(0, 8), (17, 8), (24, 8), (20, 16)] if q else [(0, 8), (7, 8), (8, 8), (9, 8), (17, 8), (24, 8), (20, 16), (32, 16), (33, 16), (40, 24)]):
             add(f'C17.tofile[{c},n={n},chunk={ch}]', h_tofile(c, n, ch), f'all {n}-bit contents; chunk size {ch} bits via the guarded hook (crosses the chunk boundary)', n=n)
+            if n in (17, 20, 33):
+                add(f'C17.tofile[{c},n={n},chunk={ch},lsb0]', h_tofile(c, n, ch, True), f'all {n}-bit contents; chunk size {ch} bits via the guarded hook; options.lsb0 set', n=n)
     for c in (['Bits'] if q else ['Bits', 'BitArray', 'ConstBitStream', 'BitStream']):
-        for nb in ([1, 2] if q else [1, 2, 3]):
+        for nb in ([0, 1, 2] if q else [0, 1, 2, 3]):
             for via in ('filename', 'handle'):
                 add(f'C17.file-window[{c},{via},bytes={nb}]', h_file_window(c, nb, via), f'all {nb}-byte files x offset,length in [-2,{8 * nb + 2}] or None', setup=F.install_fakes, nbytes=nb)
         for data in ([b'\xa5\x3c'] if q else [b'', b'\xa5', b'\xa5\x3c', b'\x01\x02\x03']):
@@ -272,4 +276,8 @@ def conditions(tier):
         for k, tr in ((2, 0), (2, 3)):
             add(f'C17.array-tobytes[{dtype},k={k},trailing={tr}]', h_array(dtype, w, k, tr), f'all data of {k} items + {tr} trailing bits')
         add(f'C17.array-fromfile[{dtype}]', h_array_fromfile(dtype, w, 2), 'all 2-byte files x item count', setup=F.install_fakes)
+    # dtypes whose Dtype.length is not their length in bits (byte multipliers) and struct codes
+    for dtype, w, nb in ((('bytes2', 16, 5), ('>H', 16, 3)) if q else (('bytes2', 16, 5), ('bytes1', 8, 2), ('bytes3', 24, 4), ('>H', 16, 3), ('<i', 32, 5))):
+        add(f'C17.array-fromfile[{dtype},bytes={nb}]', h_array_fromfile(dtype, w, nb), f'all {nb}-byte files x item count', setup=F.install_fakes)
+        add(f'C17.array-tobytes[{dtype},k=2,trailing=3]', h_array(dtype, w, 2, 3), 'all data of 2 items + 3 trailing bits')
     return conds
